@@ -421,13 +421,13 @@ async fn run_item(p: &Prepared, it: &Item, work: &Path) -> Value {
                 };
                 let before_digest = server_digest(&sdir);
                 let before_status = statuses(&server, p).await;
-                let resp = tokio::time::timeout(std::time::Duration::from_secs(20), req.send()).await;
+                let resp = tokio::time::timeout(std::time::Duration::from_secs(90), req.send()).await;
                 sent += 1;
                 let status: u16 = match resp {
                     Ok(Ok(r)) => r.status().as_u16(),
                     Ok(Err(_)) => 0,
                     Err(_) => {
-                        fails.push(json!({"sig": format!("request_hangs:{}", r.method), "what": "a request did not get an answer within 20 s"}));
+                        fails.push(json!({"sig": format!("request_hangs:{}", r.method), "what": "a request did not get an answer within 90 s"}));
                         0
                     }
                 };
